@@ -100,6 +100,8 @@ def near_operand(ir_data, rng, other):
     lo2 = lo + rng.choice([-2, -1, 0, 1, 2])
     hi2 = max(lo2, hi + rng.choice([-2, -1, 0, 1, 2]))
     v = rng.choice([lo2, hi2, rng.randint(lo2, hi2)])
+    if lo2 == hi2:
+        return mk_integer_expr(ir_data, v, v, INF, v), v, "const"        # INV: a single value is a constant (modulus infinity)
     return mk_integer_expr(ir_data, lo2, hi2, 1, 0), v, "fin[n,n]"
 
 
